@@ -51,6 +51,9 @@ def _template_payloads():
     return out
 
 
+# compatibility look-alikes of the HTML-significant characters (fullwidth / small forms; NFKC folds them to < > " & '): harmless
+# unless an output stage normalises after escaping
+HOSTILE += ['＜', '＞', '＂', '＆', '＇', '﹤', '﹥', '﹠', '＜script＞', '＂ onerror=＂x']
 HOSTILE += _template_payloads()
 
 
